@@ -225,6 +225,9 @@ func init() {
 				} else if i%6 == 2 {
 					prog = g.worldBalanceProgram()
 					c.count("directed:worldBalance")
+				} else if i%6 == 3 {
+					prog = g.twoAssetsProgram()
+					c.count("directed:twoAssets")
 				} else {
 					prog = g.Program()
 				}
